@@ -327,3 +327,19 @@ Example local_path_example :
   = Some (65537, NV4 167772160 8,
           [mkAttr 5 64 (DVal 200); mkAttr 1 64 (DVal 0); mkAttr 2 64 (DBin [])], Some [1; 2; 3; 4]).
 Proof. vm_compute. reflexivity. Qed.
+
+(* non-vacuity of local_path_accepts_wf with a textual form that satisfies v6_range *)
+Example local_path_hypotheses_example :
+  v6_range toy_r
+  /\ api_nlri_in_range (PVpn [100] (ARd2 65000 1) [49; 48; 46; 48; 46; 48; 46; 48] 8)
+  /\ Forall api_in_range [ALocalPref 200; ACommunities [4294901766]]
+  /\ local_path toy_r (Some 65664) (PVpn [100] (ARd2 65000 1) [49; 48; 46; 48; 46; 48; 46; 48] 8)
+                [ALocalPref 200; ACommunities [4294901766]]
+     = Some (65664, NVpn4 [100] (RD2 65000 1) 167772160 8,
+             [mkAttr 5 64 (DVal 200); mkAttr 8 192 (DBin [255; 255; 0; 6]); mkAttr 1 64 (DVal 0); mkAttr 2 64 (DBin [])],
+             None).
+Proof.
+  split; [apply v6_nlri_assumptions_satisfiable|].
+  split; [cbn; unfold u32_ok; lia|]. split; [repeat constructor; cbn; unfold u32_ok; lia|].
+  vm_compute. reflexivity.
+Qed.
